@@ -60,7 +60,10 @@ func (f *factory) New(a, b gopacket.Flow) tcpassembly.Stream {
 }
 
 // edesc describes one delivered element of a script: n bytes behind a gap of skip.
-type edesc struct{ n, skip int }
+type edesc struct {
+	n, skip int
+	endMark bool
+}
 
 // c20cfg is everything one execution in a bubble depends on.
 type c20cfg struct {
@@ -83,7 +86,10 @@ func materialize(script [][]edesc) (batches [][]tcpassembly.Reassembly, elems []
 				d[i] = byte(total + i + 1)
 			}
 			total += e.n
-			batch = append(batch, tcpassembly.Reassembly{Bytes: append([]byte(nil), d...), Skip: e.skip, Start: len(elems) == 0, End: b == len(script)-1 && k == len(bd)-1})
+			// (End is also set on an element in the middle now and then: the
+			// assembler marks the slice of an out-of-order FIN/RST that way and
+			// only ends the stream when the LAST slice of a batch carries it)
+			batch = append(batch, tcpassembly.Reassembly{Bytes: append([]byte(nil), d...), Skip: e.skip, Start: len(elems) == 0, End: (b == len(script)-1 && k == len(bd)-1) || (e.endMark && k != len(bd)-1)})
 			elems = append(elems, &elem{skip: e.skip, data: d, batch: b})
 		}
 		batches = append(batches, batch)
@@ -115,7 +121,7 @@ func drawScript(c *sim.Ctx, nb int, maxBytes int) (script [][]edesc) {
 				c.Fault("gap_in_delivery")
 			}
 			first = false
-			batch = append(batch, edesc{n, skip})
+			batch = append(batch, edesc{n: n, skip: skip, endMark: c.Chance(40)})
 			if n == 0 {
 				c.Fault("empty_slice_delivered")
 			}
